@@ -182,8 +182,7 @@ class Roles:
         self.mem_read_bytes = facts.method(AXE, "mem_read_bytes")["path"]
         self.mem_write_bytes = facts.method(AXE, "mem_write_bytes")["path"]
         # by signature
-        self.mem_addr = self._one(ng, lambda s: len(s) == 3 and s[0] == ["u", 64] and _is_self(s[1])
-                                  and _is_adt(s[2], "helpers::operand::MemOperand"), "mem_addr role")
+        self.mem_addr = self._mem_addr_role(ng)
         self.instruction_operand = self._one(
             ng, lambda s: len(s) == 4 and _is_result_of(s[0], lambda t: _is_adt(t, "helpers::operand::Operand"))
             and _is_self(s[1]) and _is_adt(s[2], "iced_x86::Instruction") and s[3] == ["u", 32],
@@ -216,6 +215,40 @@ class Roles:
                 var = self._trace_variant(b)
                 if var is not None:
                     self.tracers[k] = var
+
+    def _mem_addr_role(self, ng):
+        """the full effective-address function: (self, MemOperand) -> u64 whose own cone -- not counting the other
+        functions of that signature -- reads the FS/GS bases; a same-signature helper (segment-less address) is not it,
+        whichever of the two delegates to the other"""
+        pred = lambda s: len(s) == 3 and s[0] == ["u", 64] and _is_self(s[1]) and _is_adt(s[2], "helpers::operand::MemOperand")
+        cands = [k for k, b in ng.items() if pred(sig(b))]
+        self.mem_addr_noseg = []
+        if len(cands) == 1:
+            return cands[0]
+
+        def reads_seg(k, seen):
+            if k in seen or k not in self.F.bodies:
+                return False
+            seen.add(k)
+            b = self.F.bodies[k]
+            for blk in b["blocks"]:
+                for st in blk["s"]:
+                    if st[0] == "a" and "'fs'" in repr(st[2]) or st[0] == "a" and "'gs'" in repr(st[2]):
+                        return True
+                t = blk["term"]
+                if t["k"] == "call":
+                    if "'fs'" in repr(t["args"]) or "'gs'" in repr(t["args"]):
+                        return True
+                    cn = F.callee_name(t)
+                    if cn in self.F.bodies and cn not in cands and not self.F.bodies[cn]["glue"] and reads_seg(cn, seen):
+                        return True
+            return False
+        full = [k for k in cands if reads_seg(k, set())]
+        if len(full) == 1:
+            # the remaining same-signature functions compute the address without the segment base (LEA's helper)
+            self.mem_addr_noseg = [k for k in cands if k != full[0]]
+            return full[0]
+        return self._one(ng, pred, "mem_addr role")
 
     def _worker(self, pub, fallback_name):
         b = self.F.bodies[pub]
